@@ -107,8 +107,8 @@ class MulLinearOperator(LinearOperator):
             left_factor = left_vecs.unsqueeze(-2) * self.right_linear_op.to_dense().unsqueeze(-1)
             right_factor = right_vecs.unsqueeze(-2) * eye.unsqueeze(-1)
 
-        left_factor = left_factor.view(*batch_shape, n, num_vecs * right_rank)
-        right_factor = right_factor.view(*batch_shape, n, num_vecs * right_rank)
+        left_factor = left_factor.expand(*batch_shape, n, right_rank, num_vecs).reshape(*batch_shape, n, -1)
+        right_factor = right_factor.expand(*batch_shape, n, right_rank, num_vecs).reshape(*batch_shape, n, -1)
         left_deriv_args = self.left_linear_op._bilinear_derivative(left_factor, right_factor)
 
         if isinstance(self.left_linear_op, RootLinearOperator):
@@ -122,8 +122,8 @@ class MulLinearOperator(LinearOperator):
             left_factor = left_vecs.unsqueeze(-2) * self.left_linear_op.to_dense().unsqueeze(-1)
             right_factor = right_vecs.unsqueeze(-2) * eye.unsqueeze(-1)
 
-        left_factor = left_factor.view(*batch_shape, n, num_vecs * left_rank)
-        right_factor = right_factor.view(*batch_shape, n, num_vecs * left_rank)
+        left_factor = left_factor.expand(*batch_shape, n, left_rank, num_vecs).reshape(*batch_shape, n, -1)
+        right_factor = right_factor.expand(*batch_shape, n, left_rank, num_vecs).reshape(*batch_shape, n, -1)
         right_deriv_args = self.right_linear_op._bilinear_derivative(left_factor, right_factor)
 
         return tuple(list(left_deriv_args) + list(right_deriv_args))
